@@ -21,4 +21,8 @@ theorem no_hidden_static_state : treeStatics =
     [("qtreetbl.c", "_q_treetbl_flip_color_cnt"), ("qtreetbl.c", "_q_treetbl_rotate_left_cnt"),
      ("qtreetbl.c", "_q_treetbl_rotate_right_cnt")] := by decide
 
+/-- the assert() calls of this family, as reviewed: comparisons of fields only - nothing is lost when the
+    release build (-DNDEBUG) drops them; a new or changed assert() has to be reviewed here -/
+theorem asserts_side_effect_free : treeAsserts = [("qtreetbl.c", "tbl->qmutex == NULL"), ("qtreetbl.c", "minobj != NULL")] := by decide
+
 end Qlibc.Shapes.Tree
